@@ -68,3 +68,7 @@ def run(chk, prog):
     chk.require(retdiff == mk_proj(E, 2), "TRACE-RETVAL", inst + "/retdiff", "returned retdiff", derived=show(retdiff)[:300], expected="the model edit's retdiff", where=where)
     chk.require(eargs == P("argdiffs") and ekey != prop[2][0], "DELEG-ROLE", inst + "/roles", "argdiffs and distinct keys",
                 derived=f"argdiffs={show(eargs)[:80]} edit-key={show(ekey)[:80]} propose-key={show(prop[2][0])[:80]}", expected="argdiffs forwarded; proposal and model edit use different keys", where=where)
+    # the request is compositional (it implements `edit` itself): it reaches an element of a vector combinator only if the combinator's index edit dispatches
+    # through request.edit (REQ-DISPATCH in the vmap / scan analyses), not through gen_fn.edit
+    from ._share import take
+    take(chk, prog, "C11", lambda o: o["rule"] == "REQ-DISPATCH", "index-edit dispatch obligations (from C11)", 1)
